@@ -39,7 +39,7 @@ PickFine ==
   /\ \E y \in Fine(fam, cx) :
        LET p == Build(fam, cx, y) IN
        /\ Keep(y)
-       /\ IsValid(p)
+       /\ (fam = "RAW" \/ IsValid(p))          \* RAW boards are emitted whether valid or not
        /\ out' = p /\ stage' = 2 /\ UNCHANGED <<fam, cx>>
 
 Next == PickCoarse \/ PickFine
